@@ -105,6 +105,7 @@ pub struct JobOut {
     pub stats: Stats,
     pub wall_s: f64,
     pub sample: Option<String>,
+    pub recompilations: usize,
 }
 
 enum SubEnd {
@@ -210,6 +211,31 @@ fn run_job_w<const B: u32>(job: &Job, specs: &[Spec], cfg: &JobCfg) -> JobOut {
                     out.candidates.push(mk_case(cfg, job, spec, &product::ConcreteEnv::default(), format!("panic while building the executor: {}", msg)));
                 }
                 execs.push(None);
+            }
+        }
+    }
+    if cfg.twice {
+        // C13 re-compilation monitor (sampling of hash seeds, not solver-decided): every std
+        // HashMap/HashSet instance draws its own keys, so compiling again in this process
+        // varies them; the renderings must be identical
+        let mut seen = std::collections::HashSet::new();
+        for spec in specs {
+            if !seen.insert((spec.backend, spec.level)) || spec.backend == Backend::Inplace {
+                continue;
+            }
+            let r = catch_unwind(AssertUnwindSafe(|| {
+                let first = subject::compiled_rendering_w(spec.backend, &job.code, spec.level, job.width);
+                for _ in 0..3 {
+                    let again = subject::compiled_rendering_w(spec.backend, &job.code, spec.level, job.width);
+                    if again != first {
+                        return true;
+                    }
+                }
+                false
+            }));
+            out.recompilations += 4;
+            if let Ok(true) = r {
+                out.candidates.push(mk_case(cfg, job, spec, &product::ConcreteEnv::default(), "nondeterministic-compile: the printed bytecode / machine code differs between two compilations of the same (source, width, level) in one process".into()));
             }
         }
     }
